@@ -994,9 +994,12 @@ func SplitMrt(data []byte, atEOF bool) (advance int, token []byte, err error) {
 }
 
 func ParseBody(data []byte, h *MRTHeader) (*MRTMessage, error) {
-	if len(data) < int(h.Len) {
+	if uint64(len(data)) < uint64(h.Len) {
 		return nil, fmt.Errorf("not all MRT message bytes available. expected: %d, actual: %d", int(h.Len), len(data))
 	}
+	// The body ends where the header says: counts and lengths inside it must
+	// not be satisfied from whatever follows the record in the caller's buffer.
+	data = data[:h.Len]
 	var err error
 	var body Body
 	msg := &MRTMessage{Header: *h}
